@@ -195,14 +195,15 @@ func (s *sbx) runNewpolicy(killAt int) npRun {
 }
 
 type dbSnap struct {
-	Current   string   `json:"current"`
-	Dirs      []string `json:"dirs"`
-	Marker    string   `json:"marker"`
-	MarkerBad bool     `json:"marker_bad"`
-	Complete  bool     `json:"complete"`
-	Next      bool     `json:"next"`
-	Failed    bool     `json:"failed"`
-	NextHead  string   `json:"next_head"`
+	Current    string   `json:"current"`
+	Dirs       []string `json:"dirs"`
+	Marker     string   `json:"marker"`
+	MarkerBad  bool     `json:"marker_bad"`
+	Complete   bool     `json:"complete"`
+	Next       bool     `json:"next"`
+	Failed     bool     `json:"failed"`
+	NextHead   string   `json:"next_head"`
+	SrcDiffers bool     `json:"src_differs,omitempty"` // topology in current/src is not the one the code was compiled from
 }
 
 var pnRE = regexp.MustCompile(`^p(\d+)$`)
@@ -252,6 +253,11 @@ func (s *sbx) snapshot() dbSnap {
 		if sn.Marker != "" {
 			topo := s.gitOut(filepath.Join(s.dir, "netspoc.git"), "show", sn.Marker+":topology")
 			sn.MarkerBad = topo == "" || strings.Contains(topo, "BAD")
+			// The script adds a commit for the POLICY file on top of the
+			// compiled revision; the topology must be the compiled one.
+			if src, err := os.ReadFile(filepath.Join(d, "src/topology")); err == nil && topo != "" {
+				sn.SrcDiffers = strings.TrimSpace(string(src)) != strings.TrimSpace(topo)
+			}
 		}
 	}
 	if sn.Next {
@@ -294,6 +300,11 @@ func (t *timeline) add(sn dbSnap, label string) {
 		}
 		if sn.MarkerBad {
 			t.problems = append(t.problems, "current-not-compiling@"+label)
+		}
+		if sn.Complete && sn.SrcDiffers {
+			// Source of the current policy is not the revision its
+			// code was compiled from.
+			t.problems = append(t.problems, "current-src-not-the-compiled-revision@"+label)
 		}
 		n := pnum(sn.Current)
 		if n < t.lastCur {
@@ -399,11 +410,12 @@ type c19Exp struct {
 	KillAt2  int    `json:"kill_at2,omitempty"`
 	Child    string `json:"child,omitempty"`
 	Contend  int    `json:"contenders,omitempty"`
+	Bad      bool   `json:"bad_commit,omitempty"` // commit-while-compiling: the revision pushed during the compile does not compile
 	template *sbx
 }
 
 func (e *c19Exp) id() string {
-	return fmt.Sprintf("%s/%s/%d/%d/%s/%d", e.Hist, e.Kind, e.KillAt, e.KillAt2, e.Child, e.Contend)
+	return fmt.Sprintf("%s/%s/%d/%d/%s/%d/%v", e.Hist, e.Kind, e.KillAt, e.KillAt2, e.Child, e.Contend, e.Bad)
 }
 
 type c19Outcome struct {
@@ -488,7 +500,21 @@ func c19Final(s *sbx, tl *timeline) (clause, what string) {
 				nh = "eq"
 			}
 		}
-		return fmt.Sprintf("liveness:next=%v,failed=%v,nexthead=%s", sn.Next, sn.Failed, nh),
+		// How many non-compiling revisions lie above the newest
+		// compiling one? The script reverts at most one per run.
+		bare := filepath.Join(s.dir, "netspoc.git")
+		above := 0
+		for _, r := range strings.Fields(s.gitOut(bare, "log", "--first-parent", "--format=%H", "master")) {
+			topo := s.gitOut(bare, "show", r+":topology")
+			if topo != "" && !strings.Contains(topo, "BAD") {
+				break
+			}
+			above++
+		}
+		if above > 2 {
+			above = 2
+		}
+		return fmt.Sprintf("liveness:next=%v,failed=%v,nexthead=%s,bad-above-newest-compiling=%d", sn.Next, sn.Failed, nh, above),
 			fmt.Sprintf("after one undisturbed run current=%q carries %q, newest compiling revision is %q",
 				sn.Current, strings.TrimSpace(got), strings.TrimSpace(want))
 	}
@@ -585,6 +611,32 @@ func runC19Exp(env *run.Env, e *c19Exp) c19Outcome {
 		// Wait until orphan has gone: lock can be taken.
 		waitLockFree(filepath.Join(s.dir, "base/policies/LOCK"), 30*time.Second)
 		tl.add(s.snapshot(), "orphan-finished")
+	case "commit-while-compiling":
+		// A developer pushes a revision while the compiler of a run works.
+		park := filepath.Join(s.dir, "park-netspoc")
+		os.WriteFile(park, nil, 0644)
+		cmd := exec.Command(filepath.Join(s.dir, "bin/sudo-newpolicy"))
+		cmd.Dir = s.dir
+		cmd.Env = s.env()
+		cmd.SysProcAttr = &syscall.SysProcAttr{Setpgid: true}
+		if err := cmd.Start(); err != nil {
+			return fail("harness", err.Error())
+		}
+		done := make(chan error, 1)
+		go func() { done <- cmd.Wait() }()
+		if !waitFile(park+".at", 60*time.Second, done) {
+			os.Remove(park)
+			<-done
+			out.Key = ""
+			out.What = "child-not-reached"
+			return out
+		}
+		s.commit(e.Bad, nil)
+		tl.add(s.snapshot(), "committed-while-compiling")
+		os.Remove(park)
+		<-done
+		tl.add(s.snapshot(), "holder-done")
+		tl.checkNewDirs("holder-done")
 	case "concurrent":
 		park := filepath.Join(s.dir, "park-netspoc")
 		os.WriteFile(park, nil, 0644)
@@ -764,6 +816,9 @@ func checkC19(tier, replay string) int {
 		}
 		for _, child := range []string{"clone", "netspoc"} {
 			exps = append(exps, &c19Exp{Hist: t.h.Name, Kind: "kill-child", Child: child, template: t.s})
+		}
+		for _, bad := range []bool{false, true} {
+			exps = append(exps, &c19Exp{Hist: t.h.Name, Kind: "commit-while-compiling", Bad: bad, template: t.s})
 		}
 		for n := 1; n <= 3; n++ {
 			if tier == "quick" && !quickHists[t.h.Name] {
